@@ -17,6 +17,11 @@ def normalize_transform(name, dtype, params):
     name = int(name)
     pl = expand_data_card(params.split(), dtype='float')
     pl = list(pl[0])
+    # entries jumped with nJ take their default value: no displacement, m = 1
+    # (jumped matrix entries are completed later, see normalize_matrix)
+    pl[:3] = [0.0 if value is None else value for value in pl[:3]]
+    if len(pl) == 13 and pl[12] is None:
+        pl[12] = 1
     if len(pl) == 3:
         # no rotational matrix is given. Use the identical one
         dtype = dtype.replace('*', '')
